@@ -137,7 +137,7 @@ impl<T: Peel> Peel for SpannedValue<T> {
 }
 impl<T: Peel> Peel for WithOriginal<T, Meta> {
     fn peel(&self, s: &mut Seen) -> String {
-        s.originals.push(tok::canon_of(&self.original));
+        s.originals.push(orig_repr(&self.original));
         self.parsed.peel(s)
     }
 }
@@ -149,6 +149,24 @@ impl<T: Peel> Peel for Override<T> {
         }
     }
 }
+/// an item as it is kept: its tokens, and how many invisible groups stand around a name-value item's
+/// value (tokens alone do not show them)
+pub fn orig_repr(m: &Meta) -> String {
+    let mut depth = 0;
+    if let Meta::NameValue(nv) = m {
+        let mut v = &nv.value;
+        while let syn::Expr::Group(g) = v {
+            depth += 1;
+            v = &g.expr;
+        }
+    }
+    if depth == 0 {
+        tok::canon_of(m)
+    } else {
+        format!("{} [value in {depth} invisible group(s)]", tok::canon_of(m))
+    }
+}
+
 pub fn leaves(e: &Error) -> Vec<(String, R)> {
     let mut out = vec![];
     // several errors at once come as a bundle: how it is nested, where it is located and whether it
@@ -171,7 +189,7 @@ impl<T: Peel> Peel for std::result::Result<T, Meta> {
     fn peel(&self, s: &mut Seen) -> String {
         match self {
             Ok(t) => format!("MOk({})", t.peel(s)),
-            Err(m) => format!("MErr({})", tok::canon_of(m)),
+            Err(m) => format!("MErr({})", orig_repr(m)),
         }
     }
 }
@@ -357,8 +375,25 @@ fn judge(table: &[Entry], base_idx: &HashMap<&'static str, usize>, text: &str, c
         c.discarded += 1;
         return;
     };
+    // a value that is no literal may come out of a macro fragment: the same item with its value inside
+    // an invisible group (a grouped literal loses its group in the list parser and never arrives)
+    if let Meta::NameValue(nv) = &meta {
+        if !matches!(nv.value, syn::Expr::Lit(_) | syn::Expr::Group(_)) && !matches!(&nv.value, syn::Expr::Unary(u) if matches!(&*u.expr, syn::Expr::Lit(_))) {
+            let mut g = nv.clone();
+            g.value = syn::Expr::Group(syn::ExprGroup {
+                attrs: vec![],
+                group_token: syn::token::Group { span: syn::spanned::Spanned::span(&nv.value) },
+                expr: Box::new(nv.value.clone()),
+            });
+            judge_meta(table, base_idx, &format!("{text} [value in an invisible group]"), Meta::NameValue(g), c, only);
+        }
+    }
+    judge_meta(table, base_idx, text, meta, c, only);
+}
+
+fn judge_meta(table: &[Entry], base_idx: &HashMap<&'static str, usize>, text: &str, meta: Meta, c: &mut Collector, only: Option<&str>) {
     let form = classify(&meta);
-    let mt = tok::canon_of(&meta);
+    let mt = orig_repr(&meta);
     let mut base_cache: HashMap<&'static str, Out> = HashMap::new();
     for e in table {
         if let Some(o) = only {
